@@ -138,6 +138,7 @@ func ruleC08Sibling(p *Prog, a *Anchors, r *Report, res *ssa.Function) {
 func ruleC08Call(p *Prog, a *Anchors, r *Report, res *ssa.Function) {
 	r.Begin("R-C08-CALL", "calling a context function: Kind==Func, argument-count test against NumIn (error edge), NumOut ∈ {1,2} (error edge), per-parameter type test (error edge) and validity test all precede the reflect Call; the error result of a (T, error) function is returned", 5)
 	ruleC08CallNil(p, a, r)
+	ruleC08InterfaceNil(p, a, r)
 	calls := reflectCallsIn(p, res, "Call")
 	if len(calls) != 1 {
 		r.Unk("resolve:Call", p.Pos(res.Pos()), "expected exactly one reflect Call in the resolver, found %d", len(calls))
